@@ -304,6 +304,55 @@ def loc_filter(concrete: bool, k: int, g1: int, g2: int, g3: int, w0: int, w1: i
     return _loc_core(k, gs, ws, vnone, vs, lines, refs, langs, widths, has_ver, rv, nl, q0, q1)
 
 
+def _which(res, texts):
+    """Multiplicity of every stored text in a result (identity comparison: no symbolic values involved)."""
+    counts = [0] * len(texts)
+    for r in res:
+        for j, t in enumerate(texts):
+            if r is t:
+                counts[j] += 1
+    return counts
+
+
+def loc_history(k1: int, k2: int, nq: int, v0: int, v1: int, v2: int, v3: int) -> str:
+    """
+    The storage is filled in TWO steps (k1 texts, then k2 more) with `nq` unconstrained GetLocalizedText queries served in
+    between - the answers must not depend on that history: after the second add, the unconstrained query returns exactly the
+    texts carrying the highest Version over everything stored (Versions symbolic), each once.
+    pre: 1 <= k1 <= 2
+    pre: 1 <= k2 <= 2
+    pre: 0 <= nq <= 2
+    post: __return__ == 'ok'
+    """
+    k1, k2, nq = pick(k1, (1, 2)), pick(k2, (1, 2)), pick(nq, (0, 1, 2))
+    k = k1 + k2
+    vs = (v0, v1, v2, v3)[:k]
+    orc = Oracle()
+    try:
+        with untraced():
+            texts = [_mk_text(i, GROUPS[i % 4], WIDTHS[0]) for i in range(k)]
+            storage = ls.LocalizationStorage()
+        for i in range(k):
+            texts[i].Version = vs[i]
+        storage.add(*texts[:k1])
+        for _ in range(nq):
+            early = _which(storage.filter_localized_texts(None, None, None, None, None), texts)
+            first_latest = vs[0] if (k1 == 1 or vs[0] >= vs[1]) else vs[1]
+            for i in range(k):
+                orc.check(early[i] == (1 if (i < k1 and vs[i] == first_latest) else 0), 'unfiltered_result_not_latest_version')
+        storage.add(*texts[k1:])
+        got = _which(storage.filter_localized_texts(None, None, None, None, None), texts)
+        latest = vs[0]
+        for v in vs[1:]:
+            if v > latest:
+                latest = v
+        for i in range(k):
+            orc.check(got[i] == (1 if vs[i] == latest else 0), 'unfiltered_result_not_latest_version_after_later_add')
+    except Exception as ex:  # noqa: BLE001
+        return exc_result(orc, ex, 'history')
+    return orc.result()
+
+
 LANGS = ('en', 'de', 'fr', None)
 
 
